@@ -236,7 +236,99 @@ func c10Classify(c c10Case) (sig, what string) {
 	return "unexplained", what
 }
 
+// ---- several writers and readers on one ROM: each has its own window and cursor
+
+type c10MultiOp struct {
+	W   int `json:"writer"`
+	Len int `json:"len"`
+}
+
+type c10Multi struct {
+	Banks int          `json:"banks"`
+	Addrs []uint32     `json:"writer_addrs"`
+	Ops   []c10MultiOp `json:"ops"`
+}
+
+func c10MultiRun(c c10Multi) (sig, what string) {
+	defer func() {
+		if x := recover(); x != nil {
+			sig, what = "unexplained:multi-writer", fmt.Sprintf("%+v: panic %v", c, x)
+		}
+	}()
+	img := c10Image(c.Banks)
+	model := append([]byte(nil), img...)
+	rom, err := snes.NewROM("t", img)
+	if err != nil {
+		return "bad-case", err.Error()
+	}
+	ws := make([]io.Writer, len(c.Addrs))
+	cur := make([]uint32, len(c.Addrs))
+	for i, a := range c.Addrs {
+		ws[i] = rom.BusWriter(a)
+	}
+	for k, op := range c.Ops {
+		a := c.Addrs[op.W]
+		start := a>>16<<15 | a&0x7FFF
+		end := a>>16<<15 | 0x7FFF
+		room := int(end+1) - int(start+cur[op.W])
+		p := make([]byte, op.Len)
+		for j := range p {
+			p[j] = byte(0xC0 + 16*op.W + k*3 + j)
+		}
+		gn, gerr := ws[op.W].Write(p)
+		if op.Len <= room {
+			if gn != op.Len || gerr != nil {
+				return "unexplained:multi-writer", fmt.Sprintf("%+v: op #%d: writer %d (cursor %d, room %d) returned (%d,%v), want (%d,nil)", c, k, op.W, cur[op.W], room, gn, gerr, op.Len)
+			}
+			copy(model[start+cur[op.W]:], p)
+			cur[op.W] += uint32(op.Len)
+		} else {
+			if gerr == nil || gn < 0 || gn >= op.Len || gn > room {
+				return "unexplained:multi-writer", fmt.Sprintf("%+v: op #%d: writer %d (room %d) returned (%d,%v) for %d bytes", c, k, op.W, room, gn, gerr, op.Len)
+			}
+			copy(model[start+cur[op.W]:], p[:gn])
+			cur[op.W] += uint32(gn)
+		}
+		if !bytes.Equal(model, img) {
+			return "unexplained:multi-writer", fmt.Sprintf("%+v: after op #%d the image differs from the model at file offset $%06x: the writers are not independent", c, k, firstDiff(img, model))
+		}
+	}
+	return "", ""
+}
+
+func c10MultiCases(depth int) []c10Multi {
+	pairs := [][]uint32{{0x00FFF0, 0x00FFF0}, {0x00FFF0, 0x00FFF8}, {0x00FFE0, 0x01FFE8}, {0x018000, 0x008000}}
+	lens := []int{1, 3, 8, 17}
+	var out []c10Multi
+	for _, pr := range pairs {
+		var rec func(p []c10MultiOp, d int)
+		rec = func(p []c10MultiOp, d int) {
+			if len(p) > 1 {
+				out = append(out, c10Multi{2, pr, append([]c10MultiOp(nil), p...)})
+			}
+			if d == 0 {
+				return
+			}
+			for w := 0; w < 2; w++ {
+				for _, l := range lens {
+					rec(append(p, c10MultiOp{w, l}), d-1)
+				}
+			}
+		}
+		rec(nil, depth)
+	}
+	return out
+}
+
 func replayC10(raw json.RawMessage) (string, error) {
+	var mc c10Multi
+	if json.Unmarshal(raw, &mc) == nil && len(mc.Addrs) > 0 {
+		sig, what := c10MultiRun(mc)
+		if sig == "" {
+			return "the writers behave independently as the window model says", nil
+		}
+		return what, fmt.Errorf("%s", sig)
+	}
 	var c c10Case
 	if err := json.Unmarshal(raw, &c); err != nil {
 		return "", err
@@ -299,6 +391,16 @@ func runC10(r *report.Run) {
 			}
 		}
 	}
+	if !thorough {
+		// banks >= $40 on a 4 MiB image (reduced set; the thorough tier sweeps them like the small images)
+		for _, b := range []uint32{0x3F, 0x40, 0x7F} {
+			for _, o := range []uint32{0x7FFF, 0x8000, 0xFFFE, 0xFFFF} {
+				for _, l := range []int{1, 2, 3} {
+					cases = append(cases, c10Case{Banks: 0x80, Addr: b<<16 | o, Writes: []int{l}, Reads: []int{0x8000}})
+				}
+			}
+		}
+	}
 	// (B) write histories up to depth 4 (thorough 5), then a reader at the same address
 	wl := []int{0, 1, 2, 3, 0x7FFE, 0x7FFF, 0x8000}
 	depth := 4
@@ -352,9 +454,20 @@ func runC10(r *report.Run) {
 			atomic.AddInt64(&nontrivial, 1)
 		}
 	})
-	r.Set("states", int64(len(states)))
+	// (C) two writers on one ROM, interleaved
+	multi := c10MultiCases(depth)
+	var nm int64
+	par.For(len(multi), func(_, i int) {
+		atomic.AddInt64(&nm, int64(len(multi[i].Ops)))
+		if sig, what := c10MultiRun(multi[i]); sig != "" {
+			r.ViolationSized(sig, what, multi[i], len(multi[i].Ops))
+		}
+	})
+	transitions += nm
+	r.Set("two_writer_histories", int64(len(multi)))
+	r.Set("states", int64(len(states))+int64(len(multi)))
 	r.Set("transitions", transitions)
-	r.Set("traces_validated_against_impl", int64(len(cases)))
+	r.Set("traces_validated_against_impl", int64(len(cases)+len(multi)))
 	r.Set("evaluations", int64(len(cases)))
 	r.Set("distinct_nontrivial", nontrivial)
 	r.Set("rule", "every (image size, bank inside the image, boundary offset, length) single write/read, and every write history up to the stated depth over the length alphabet from the boundary start offsets, each followed by a reader at the same address; every call is executed on a fresh real ROM object and compared with the window model (full image compare after each write); non-trivial = address in the ROM half of a bank")
